@@ -79,6 +79,12 @@ def call_stmt(ex, e, st):
         if isinstance(base, Tup) and f.attr == "append":
             st.env[name] = Tup(base.items + [ex.ev(e.args[0], st)])
             return
+        from pyvc.sym import CList
+        if isinstance(base, CList) and f.attr == "append":
+            ex.ev(e.args[0], st)                         # the argument is evaluated (its own exceptions are obligations); only the length is kept
+            ex.frame_store(st, name, e.lineno)
+            st.env[name] = CList(base.n + 1)
+            return
         if isinstance(base, Seq) and base.kind == "list":
             if name in st.aliased:
                 raise U(f"mutation of possibly aliased list {name}")
@@ -347,6 +353,9 @@ def b_len(ex, e, st):
         return iv(len(v.items))
     if isinstance(v, PySet):
         return iv(len(v.items))
+    from pyvc.sym import CList
+    if isinstance(v, CList):
+        return v.n
     from pyvc.engine import is_opaque
     if is_opaque(v) or isinstance(v, Coll):
         n_ = fresh("len")
